@@ -39,6 +39,16 @@ check("C12", "exploration",
       "deterministic simulation with fault injection: seeded schedule/fault search, step invariants + reference model, tape replay and minimisation",
       "§7 C12")
 
+check("C01", "exploration",
+      "Seeded deterministic simulation of the real XRD controller, the real XR reconciler it builds and both real composers (function pipeline with scripted functions behind the gRPC interceptor seam; named patch-and-transform templates) "
+      "on a stateful API server model with real server-side apply. Every API call of every reconcile is a fault point: error before, reply lost after the write took effect, conflict, process crash before/after; "
+      "a single-shot mode places exactly one fault at a drawn call index. XR and Composition edits grow, shrink and change the desired set. "
+      "Invariants after EVERY scheduler step: every live composed resource controlled by a live XR is listed in the stored spec.resourceRefs; at most one live composed resource per (XR, desired name). "
+      "After faults stop: fault-free reconciles must reach a fixpoint in which a further full round changes no object (idempotence).",
+      TB + " Not decided: stale-cache reads of the XR (outside the stated quantifier); composed resources with their own finalizers.",
+      "deterministic simulation with fault injection: seeded schedule/fault/crash search, per-step store invariants, bounded-liveness fixpoint after heal, tape replay and minimisation",
+      "§7 C01")
+
 def main():
     props = [json.loads(l)["id"] for l in open(os.path.join(V, "properties.jsonl"))]
     na = []
